@@ -44,7 +44,7 @@ def integer_power(x, n, one=1):
 
     while n > 0:
         if n & 1:
-            aux *= x
+            aux = aux * x
             if n == 1:
                 return aux
         x = x * x
